@@ -221,10 +221,15 @@ Qed.
 
 Definition item_of_class (c : class) : option item :=
   match c with
-  | {| c_tmpl := None; c_virtual := v; c_name := n; c_base := None; c_ctors := ks; c_methods := ms; c_statics := ss;
+  | {| c_tmpl := None; c_virtual := v; c_name := n; c_base := ba; c_ctors := ks; c_methods := ms; c_statics := ss;
        c_dunders := []; c_props := ps; c_ops := []; c_enums := es |} =>
     match omap (mem_of_ctor n) ks, omap mem_of_method ms, omap mem_of_static ss, omap mem_of_prop ps with
-    | Some a, Some b, Some s, Some c => Some (IClass v n (a ++ b ++ s ++ c ++ map mem_of_enum es))
+    | Some a, Some b, Some s, Some c =>
+      match ba with
+      | None => Some (IClass v n (a ++ b ++ s ++ c ++ map mem_of_enum es))
+      | Some (BName (Typename ns (NStr bn) [])) => Some (IClassB v n ns bn (a ++ b ++ s ++ c ++ map mem_of_enum es))
+      | _ => None
+      end
     | _, _, _, _ => None
     end
   | _ => None
@@ -232,18 +237,24 @@ Definition item_of_class (c : class) : option item :=
 Lemma item_of_class_ok : forall c i, item_of_class c = Some i -> idecl i = DClass c.
 Proof.
   intros [tm v n ba ks ms ss ds ps os es] i H. cbn [item_of_class] in H.
-  destruct tm; [discriminate|]. destruct ba; [discriminate|]. destruct ds; [|discriminate].
+  destruct tm; [discriminate|]. destruct ds; [|discriminate].
   destruct os; [|discriminate].
   destruct (omap (mem_of_ctor n) ks) as [a|] eqn:Ea; [|discriminate].
   destruct (omap mem_of_method ms) as [b|] eqn:Eb; [|discriminate].
   destruct (omap mem_of_static ss) as [s|] eqn:Es; [|discriminate].
-  destruct (omap mem_of_prop ps) as [c|] eqn:Ec; [|discriminate]. inversion H; subst i.
-  cbn [idecl]. unfold class_decl. rewrite !map_app.
-  rewrite (omap_map _ _ _ (mem_of_ctor n) (mem_member n) MCtor (mem_of_ctor_ok n) ks a Ea).
-  rewrite (omap_map _ _ _ mem_of_method (mem_member n) MMethod (mem_of_method_ok n) ms b Eb).
-  rewrite (omap_map _ _ _ mem_of_static (mem_member n) MStatic (mem_of_static_ok n) ss s Es).
-  rewrite (omap_map _ _ _ mem_of_prop (mem_member n) MVar (mem_of_prop_ok n) ps c Ec), mem_of_enum_ok.
-  rewrite class_of_grouped. reflexivity.
+  destruct (omap mem_of_prop ps) as [c|] eqn:Ec; [|discriminate].
+  assert (EM : map (mem_member n) (a ++ b ++ s ++ c ++ map mem_of_enum es)
+               = map MCtor ks ++ map MMethod ms ++ map MStatic ss ++ map MVar ps ++ map MEnum es).
+  { rewrite !map_app.
+    rewrite (omap_map _ _ _ (mem_of_ctor n) (mem_member n) MCtor (mem_of_ctor_ok n) ks a Ea).
+    rewrite (omap_map _ _ _ mem_of_method (mem_member n) MMethod (mem_of_method_ok n) ms b Eb).
+    rewrite (omap_map _ _ _ mem_of_static (mem_member n) MStatic (mem_of_static_ok n) ss s Es).
+    rewrite (omap_map _ _ _ mem_of_prop (mem_member n) MVar (mem_of_prop_ok n) ps c Ec), mem_of_enum_ok. reflexivity. }
+  destruct ba as [[t|[bns [bn|o] insts]]|].
+  - discriminate.
+  - destruct insts; [|discriminate]. inversion H; subst i. cbn [idecl]. unfold class_decl_b. rewrite EM, class_of_grouped. reflexivity.
+  - discriminate.
+  - inversion H; subst i. cbn [idecl]. unfold class_decl. rewrite EM, class_of_grouped. reflexivity.
 Qed.
 
 (* declaration trees of the fragment: functions, and namespaces of such *)
@@ -427,11 +438,12 @@ Fixpoint wf_itemb (i : item) : bool :=
   | IFnP a b n l => wf_tyb a && wf_tyb b && plainb a && plainb b && is_ident (chars_of n) && forallb wf_argb l
   | IEnum n l => wf_enumb n l
   | IClass _ n ms => wf_classb n ms
+  | IClassB _ n ns bn ms => wf_classb n ms && forallb is_ident (names_of ns bn) && negb (memc (hd [] (names_of ns bn)) [kconst])
   | INs n b => is_ident (chars_of n) && forallb wf_itemb b
   end.
 Lemma wf_itemb_ok : forall k i, idepth i < k -> wf_itemb i = true -> wf_item i.
 Proof.
-  induction k as [|k IH]; intros i Hd H; [lia|]. destruct i as [x|t n|vt n|hd|en el|tt tnm|pa pb pn pl|cv cn cms|n b]; cbn [wf_itemb wf_item] in *.
+  induction k as [|k IH]; intros i Hd H; [lia|]. destruct i as [x|t n|vt n|hd|en el|tt tnm|pa pb pn pl|cv cn cms|bv bcn bns bbn bms|n b]; cbn [wf_itemb wf_item] in *.
   - apply wf_fnb_ok. exact H.
   - apply andb_true_iff in H. destruct H as [H H4]. apply andb_true_iff in H. destruct H as [H H3].
     apply andb_true_iff in H. destruct H as [H1 H2]. apply Nat.ltb_lt in H2.
@@ -451,6 +463,9 @@ Proof.
     split; [exact P1|]. split; [exact P2|]. split; [exact H5|].
     apply Forall_forall. intros a Ha. apply wf_argb_ok. rewrite forallb_forall in H6. apply H6. exact Ha.
   - apply wf_classb_ok. exact H.
+  - apply andb_true_iff in H. destruct H as [H H3]. apply andb_true_iff in H. destruct H as [H1 H2]. split; [apply wf_classb_ok; exact H1|]. split.
+    + apply Forall_forall. intros x Hx. rewrite forallb_forall in H2. apply H2. exact Hx.
+    + unfold memc in H3. destruct (in_dec chars_dec (hd [] (names_of bns bbn)) [kconst]) as [i|ni]; [discriminate|]. intros E. apply ni. left. symmetry. exact E.
   - apply andb_true_iff in H. destruct H as [H1 H2]. split; [exact H1|]. cbn [idepth] in Hd.
     assert (Hb : forall j, In j b -> wf_item j).
     { intros j Hj. apply IH; [pose proof (idepth_ge b j Hj); lia | rewrite forallb_forall in H2; apply H2; exact Hj]. }
